@@ -81,6 +81,14 @@ EXTRA_SOURCES = {
               "int callall(int x) {\n" + "".join("    x += imp%03d(x);\n" % k for k in range(MANY_IMPORTS)) + "    return x;\n}\n",
 }
 
+# text + read-only data of more than one 4K page, followed by a writable segment that starts in the last of those pages
+# when linked with -z noseparate-code and a small max-page-size (or with an explicit -Ttext/-Tdata layout)
+_PAGED = ("const unsigned char blob[5000] = {%s};\n" % ", ".join(str((i * 37 + 11) % 251) for i in range(5000)) +
+          "int counter = 5; int table[64] = {1, 2, 3}; int zeroes[300];\n"
+          "int pick(int i) { return blob[i % 5000] + table[i & 63] + zeroes[i % 300] + counter++; }\n")
+EXTRA_SOURCES["paged.c"] = _PAGED + "int main(int argc, char **argv) { return pick(argc); }\n"
+EXTRA_SOURCES["pagedfs.c"] = _PAGED + "void _start(void) { for (;;) pick(counter); }\n"
+
 CLANG_TARGETS = ("armv7", "armeb", "aarch64", "aarch64_be", "mips", "mipsel", "mips64", "powerpc", "powerpc64",
                  "powerpc64le", "riscv64", "i386", "s390x")
 
@@ -110,7 +118,22 @@ def plan():
         for t in CLANG_TARGETS:
             out = "%s.%s.o" % (st, t)
             jobs.append((out, "clang-" + t, ["clang", "--target=%s-linux-gnu" % t, "-O1", "-c", "-o", out, src], []))
-    for src in sorted(EXTRA_SOURCES):
+    for ps in ("0x200", "0x400"):
+        z = ["-Wl,-z,noseparate-code", "-Wl,-z,max-page-size=" + ps]
+        jobs.append(("paged.%s.exec" % ps, "gcc-exec-shared-page", ["gcc", "-O1", "-no-pie"] + z + ["-o", "paged.%s.exec" % ps, "paged.c"], []))
+        jobs.append(("paged.%s.so" % ps, "gcc-shared-shared-page", ["gcc", "-O1", "-shared", "-fPIC"] + z + ["-o", "paged.%s.so" % ps, "paged.c"], []))
+    jobs.append(("paged.m32.o", "gcc-m32-obj", ["gcc", "-m32", "-O1", "-fPIC", "-c", "-o", "paged.m32.o", "paged.c"], []))
+    jobs.append(("paged.m32.so", "ld-i386-shared-shared-page",
+                 ["ld", "-m", "elf_i386", "-shared", "-z", "noseparate-code", "-z", "max-page-size=0x200", "-o", "paged.m32.so", "paged.m32.o"],
+                 ["paged.m32.o"]))
+    jobs.append(("pagedfs.T.exec", "gcc-static-Ttext-Tdata",
+                 ["gcc", "-O1", "-nostdlib", "-static", "-fno-pic", "-no-pie", "-Wl,-z,noseparate-code", "-Wl,-z,max-page-size=0x200",
+                  "-Wl,-Ttext=0x10000", "-Wl,-Tdata=0x11a40", "-o", "pagedfs.T.exec", "pagedfs.c"], []))
+    jobs.append(("pagedfs.m32.o", "gcc-m32-obj", ["gcc", "-m32", "-O1", "-fno-pic", "-c", "-o", "pagedfs.m32.o", "pagedfs.c"], []))
+    jobs.append(("pagedfs.m32T.exec", "ld-i386-Ttext-Tdata",
+                 ["ld", "-m", "elf_i386", "-z", "noseparate-code", "-z", "max-page-size=0x200", "-Ttext=0x10000", "-Tdata=0x11a40",
+                  "-o", "pagedfs.m32T.exec", "pagedfs.m32.o"], ["pagedfs.m32.o"]))
+    for src in ("many.c",):
         st = _stem(src)
         jobs.append((st + ".gcc.so", "gcc-shared", ["gcc", "-O1", "-shared", "-fPIC", "-o", st + ".gcc.so", src], []))
         jobs.append((st + ".gcc.o", "gcc-obj", ["gcc", "-O1", "-c", "-o", st + ".gcc.o", src], []))
